@@ -15,8 +15,6 @@ package c25
 import (
 	"encoding/json"
 	"fmt"
-	"os"
-	"runtime/pprof"
 	"time"
 
 	"github.com/pkg/errors"
@@ -183,7 +181,7 @@ type world struct {
 // keeps and its iterators walk over, do not pile up.
 func newWorld() *world {
 	st, err := leveldbstorage.NewStorage(leveldbStorage.NewMemStorage(), &leveldbOpt.Options{
-		WriteBuffer:            64 << 10,
+		WriteBuffer:            256 << 10,
 		BlockCacheCapacity:     64 << 10,
 		DisableSeeksCompaction: true,
 	})
@@ -362,11 +360,6 @@ func (w *world) do(o op, res *result) {
 }
 
 func run(args []string) error {
-	if pp := os.Getenv("C25_PPROF"); pp != "" {
-		f, _ := os.Create(pp)
-		_ = pprof.StartCPUProfile(f)
-		defer pprof.StopCPUProfile()
-	}
 	fl := h.Flags(args)
 	out, err := h.NewOut(fl["out"])
 	if err != nil {
